@@ -158,6 +158,9 @@ pub fn refresh_share<C: Ciphersuite>(
 
     let mut new_key_package = current_key_package.clone();
     new_key_package.signing_share = signing_share;
+    // The verifying share must match the refreshed signing share (and the
+    // entry in the refreshed PublicKeyPackage).
+    new_key_package.verifying_share = signing_share.into();
 
     Ok(new_key_package)
 }
